@@ -502,7 +502,83 @@ def r17_6(chk):
     chk.floor("R17.6", 1, "one loader")
 
 
+def _loop_carried_kwargs_mutations(fn):
+    """in-place mutations, inside a loop, of a mapping bound outside the loop that the loop body passes on as **mapping"""
+    out = []
+    for lp in ast.walk(fn):
+        if not isinstance(lp, (ast.For, ast.While)):
+            continue
+        spread = {kw.value.id for c in ast.walk(lp) if isinstance(c, ast.Call) for kw in c.keywords if kw.arg is None and isinstance(kw.value, ast.Name)}
+        rebound = {t.id for st in ast.walk(lp) if isinstance(st, ast.Assign) for t in st.targets if isinstance(t, ast.Name)}
+        for x in ast.walk(lp):
+            nm = None
+            if isinstance(x, ast.Call) and isinstance(x.func, ast.Attribute) and x.func.attr in ("pop", "update", "setdefault", "clear", "popitem") and isinstance(x.func.value, ast.Name):
+                nm = x.func.value.id
+            elif isinstance(x, (ast.Assign, ast.Delete)):
+                for t in x.targets:
+                    if isinstance(t, ast.Subscript) and isinstance(t.value, ast.Name):
+                        nm = t.value.id
+            if nm and nm in spread and nm not in rebound:
+                out.append((lp, x, nm))
+    return out
+
+
+def r17_7(chk):
+    chk.rule("R17.7", "every table is queried with the caller's conditions: inside a loop over the db's tables, the keyword mapping that is passed on (`**mapping`) is not edited in place (pop / del / item store) unless it was bound afresh inside that loop -- an edit made for one table silently changes the query of the tables visited afterwards (on_alignment=False lost for the user table of a Gff/Genbank db)")
+    m = chk.repo.module(DB)
+    n = 0
+    for q, fn in m.all_functions():
+        hits = _loop_carried_kwargs_mutations(fn)
+        if any(isinstance(c, ast.Call) and any(kw.arg is None for kw in c.keywords) for lp in ast.walk(fn) if isinstance(lp, (ast.For, ast.While)) for c in ast.walk(lp)):
+            n += 1
+            seen = set()
+            for lp, x, nm in hits:
+                if (nm, x.lineno) in seen:
+                    continue
+                seen.add((nm, x.lineno))
+                chk.violation("R17.7", key(m, q, f"`{norm(x)[:50]}` inside the table loop"), m.loc(x), f"`{norm(x)[:70]}` edits `{nm}`, which was bound outside the loop and is passed as **{nm} to the query of every table: the tables visited after this iteration are queried without that condition")
+            if not hits:
+                chk.ok("R17.7", key(m, q, "query arguments are per-iteration"), m.loc(fn), "no in-place edit of a loop-carried keyword mapping")
+    probe = ast.parse("def f(self, **kwargs):\n    for t in self.table_names:\n        if t != 'user':\n            kwargs.pop('on_alignment', None)\n        self._q(table_name=t, **kwargs)\n").body[0]
+    if not _loop_carried_kwargs_mutations(probe):
+        raise AnalysisError("R17.7 self-probe failed")
+    chk.floor("R17.7", 2, "table loops that forward keyword mappings")
+
+
+def r17_8(chk):
+    chk.rule("R17.8", "GFF record identity: the patterns that extract the ID and Parent of a row match the key only where an attribute begins (start of the column or after ';') and with its exact case -- an unanchored or case-insensitive pattern also matches exon_id= / geneID= and merges unrelated rows into one record")
+    import re._parser as rp  # noqa: F401
+
+    m = chk.repo.module("parse/gff.py")
+    fn = m.func("merged_gff_records")
+    from ..literals import propagate
+
+    comps = [st for st in walk_no_nested(fn) if isinstance(st, ast.Assign) and isinstance(st.value, ast.Call) and call_name(st.value) == "re.compile"]
+    if len(comps) < 2:
+        raise AnalysisError("merged_gff_records: the two re.compile calls were not found")
+    templates = {norm(st.targets[0]): st.value.value for st in walk_no_nested(fn) if isinstance(st, ast.Assign) and isinstance(st.value, ast.Constant) and isinstance(st.value.value, str)}
+    for st in comps:
+        c = st.value
+        a = c.args[0]
+        pat = None
+        if isinstance(a, ast.Constant):
+            pat = a.value
+        elif isinstance(a, ast.Call) and isinstance(a.func, ast.Attribute) and a.func.attr == "format" and isinstance(a.func.value, ast.Name) and a.func.value.id in templates and all(isinstance(x, ast.Constant) for x in a.args):
+            pat = templates[a.func.value.id].format(*[x.value for x in a.args])
+        k = key(m, "merged_gff_records", f"pattern of `{norm(st.targets[0])}`")
+        if pat is None:
+            chk.unresolved("R17.8", k, m.loc(st), "pattern text could not be folded")
+            continue
+        flags = [norm(x) for x in c.args[1:]] + [norm(kw.value) for kw in c.keywords if kw.arg == "flags"]
+        ci = any("IGNORECASE" in f or f.endswith("re.I") for f in flags) or "(?i" in pat
+        anchored = pat.startswith("(?:^|;)") or pat.startswith("(?:;|^)") or pat.startswith("(?<![^;])") or pat.startswith("(?:^|(?<=;))")
+        chk.decide(anchored and not ci, "R17.8", k, m.loc(st), f"pattern {pat!r}", f"pattern {pat!r}{' (case-insensitive)' if ci else ''} {'is not anchored at the start of an attribute' if not anchored else ''}: keys that merely end in the same letters (exon_id=, geneID=) supply the identifier, so rows without an ID that share such a value are merged into one record")
+    chk.floor("R17.8", 2, "ID and Parent patterns")
+
+
 def run(chk):
+    r17_8(chk)
+    r17_7(chk)
     r17_6(chk)
     r17_5(chk)
     r17_1(chk)
